@@ -218,7 +218,7 @@ def analyse(fx, f, field="env"):
             continue
         lent = None
         for ai, a in enumerate(t[2]):
-            if a[0] in ("c", "m") and not a[1][1] and fx.tys(f.locals[a[1][0]]).startswith("&mut "):
+            if a[0] in ("c", "m") and not a[1][1] and fx.tys(f.locals[a[1][0]]).startswith("&"):
                 from c09 import ancestors as _anc
                 if _anc(f, a[1][0]) & saved:
                     lent = ai + 1
